@@ -21,11 +21,15 @@ def prop(pid, level="proof", explanation="", trusted_base=(), assumptions=()):
                       trusted_base=TB_COMMON + list(trusted_base), assumptions=list(assumptions))
 
 
-def kani(harness, props, tier="quick", kind="complete", bound="", fns=(), text="", timeout=1800, allow=()):
+def kani(harness, props, tier="quick", kind="complete", bound="", fns=(), text="", timeout=1800, allow=(), loop_contract=None):
     """allow: regexes of failed-check descriptions that are *clean failures the property permits*
-    (documented panics of a constructor on invalid input); they are not violations."""
+    (documented panics of a constructor on invalid input); they are not violations.
+    loop_contract: (properties, text) - the harness' unwind bound is a *termination contract* of the
+    function under contract (stated in `text`, with the reason the bound is above the worst case of a
+    terminating implementation); an unwinding-assertion failure INSIDE /repo code is then a violation of the
+    named properties (a loop that runs longer than the contract allows), not an undecided run."""
     KANI_UNITS.append(dict(harness=harness, props=list(props), tier=tier, kind=kind, bound=bound,
-                           fns=list(fns), text=text, timeout=timeout, allow=list(allow)))
+                           fns=list(fns), text=text, timeout=timeout, allow=list(allow), loop_contract=loop_contract))
 
 
 def lemma(file, props, tier="quick", timeout=600):
@@ -506,6 +510,8 @@ verus_unit(
     },
 )
 
+kani("range::clear_then_encode_u8_u16", ["C02"], fns=[Q + "RangeEncoder::clear", QE, Q + "RangeEncoder::seal"], timeout=1200,
+     text="from ANY encoder state (incl. held-back words): clear(), encode one symbol, seal == what a new encoder seals for that symbol")
 # ---------------- Verus unit: bit-level stack / queue coders (symbol/mod.rs)
 verus_unit(
     name="bits", template="bits_unit.rs.tmpl",
